@@ -904,6 +904,29 @@ PROPS["C08"] = {
     "assumptions": ["sequentially consistent memory", "threads interleave only at schedule points placed where no lock is held"],
 }
 
+# C06 quantifies over every point of every schedule at which an abort can be injected — including a point inside a concurrent poll
+def conc_abortrace_gen(tier, seed):
+    return [["gen", seed, 1500 if tier == "quick" else 60000, "abortrace"]]
+
+
+PROPS["C06"]["streams"].append(Stream("abortrace", "conc", "conc", conc_abortrace_gen, shape=conc_shape, shrink=sexp_shrinks,
+                                      compare_model=False))
+PROPS["C06"]["rule"] += ("; abortrace stream (conc harness, real threads forced through the crux_verif schedule points): "
+                         "AbortHandle::abort on one thread against is_done() / resolve / drop on another, the aborted command "
+                         "standing alone or hosted by then / and / all / map_event / map_effect; accepted iff the outcome (effects, "
+                         "events, done flag, live tasks) equals that of one of the two sequential orders computed by M.Hosts — an "
+                         "aborted command that stays alive in its host after both calls have returned is rejected")
+
+# C09 quantifies over schedules as well: the bridge's id allocation and routing under concurrent calls (same stream as C08's)
+PROPS["C09"]["streams"].append(Stream("bridgerace", "conc", "conc", conc_bridgerace_gen, shape=conc_shape, shrink=sexp_shrinks,
+                                      compare_model=False))
+PROPS["C09"]["rule"] += ("; bridgerace stream (shared with C08): a bincode Bridge driven by 2-3 real threads through forced "
+                         "interleavings of the crux_verif schedule points, racing process_event / handle_response on live (often the "
+                         "same) ids; accepted iff the outcome (result classes, decoded effects with their ids, applied events, "
+                         "registry occupancy, no panic) equals that of SOME sequential order of the calls computed by M.Hosts — "
+                         "an id handed out twice or a response routed to another request under an interleaving is rejected")
+
+
 # ---- C11 (engine det) -------------------------------------------------------------------------------------------
 def det_gen(kind, quick, thorough):
     return lambda tier, seed: [[f"gen-{kind}", seed, quick if tier == "quick" else thorough]]
@@ -1124,7 +1147,7 @@ ENGINE_TEXT = {
     "kv": "real crux_kv calls (capability + command API; Core and bincode Bridge hosts) vs M.Kv (Lean), oracle S.Kv",
     "conv": "differential driver for crux_time::protocol conversions (Rust) vs M.Conv (Lean), oracle S.Conv",
 }
-HOOK_COMMITS = ["3b3ccf0", "fd94595", "1055c0e", "261bd7a"]
+HOOK_COMMITS = ["3b3ccf0", "fd94595", "1055c0e", "261bd7a", "aabe6ae"]
 
 # Only these are listed in MANIFEST.json as claimed (the lead adds an id here once its check has been reviewed and passes).
 CLAIMED = ["C%02d" % i for i in range(1, 21)]
